@@ -117,6 +117,23 @@ class Check:
     def quick(self):
         return self.tier == "quick"
 
+    @staticmethod
+    def lint_specs():
+        """Self-check of the specification sources: a trailing line comment that swallowed code (an edit that put a comment in the middle of
+        a line silently removes what follows from the specification; it happened twice while this framework was built)."""
+        bad = []
+        for d in (SPEC, os.path.join(SPEC, "apalache")):
+            for fn in sorted(os.listdir(d)):
+                if not fn.endswith(".tla"):
+                    continue
+                for i, line in enumerate(open(os.path.join(d, fn)), 1):
+                    if "\\*" in line:
+                        code, comment = line.split("\\*", 1)
+                        if code.strip() and re.search(r"\|->|\bELSE\b|\bTHEN\b|\\cup|==|/\\|\\/", comment):
+                            bad.append("%s:%d" % (fn, i))
+        if bad:
+            raise FrameworkError("specification source: code inside a trailing comment at " + ", ".join(bad))
+
     # ---------------------------------------------------------------- build
     def build_worker(self, race=False):
         out = os.path.join(self.scratch, "worker" + ("-race" if race else ""))
@@ -597,6 +614,7 @@ def main(pid, level, fn):
     c = None
     try:
         c = Check(pid, level)
+        Check.lint_specs()
         if c.replay:
             rc = c.run_replay()
             if not c.keep:
